@@ -1,0 +1,15 @@
+//go:build verif
+
+package pool
+
+import "github.com/go-netty/go-netty/utils/pool/internal/pmath"
+
+// Verification hooks: re-export the internal size-class arithmetic so that an
+// external harness can compare it with a reference. Compiled only with the
+// "verif" build tag.
+var (
+	VerifCeilToPowerOfTwo  = pmath.CeilToPowerOfTwo
+	VerifFloorToPowerOfTwo = pmath.FloorToPowerOfTwo
+	VerifIsPowerOfTwo      = pmath.IsPowerOfTwo
+	VerifLogarithmicRange  = pmath.LogarithmicRange
+)
